@@ -25,6 +25,7 @@ import (
 )
 
 type c11Result struct {
+	leak   []control.Paragraph // paragraphs readable from a value returned beside an error
 	paras  []control.Paragraph
 	err    error
 	signer *openpgp.Entity
@@ -42,6 +43,12 @@ func c11Read(r *rt.Run, api string, data []byte, keyring *openpgp.EntityList) c1
 			pr, err := control.NewParagraphReader(rd, keyring)
 			if err != nil {
 				res.err = err
+				if pr != nil {
+					// a value handed out beside the error must not give access to the text
+					if ps, e := pr.All(); e == nil && len(ps) > 0 {
+						res.leak = ps
+					}
+				}
 				return
 			}
 			res.built = true
@@ -65,6 +72,12 @@ func c11Read(r *rt.Run, api string, data []byte, keyring *openpgp.EntityList) c1
 			dec, err := control.NewDecoder(rd, keyring)
 			if err != nil {
 				res.err = err
+				if dec != nil {
+					var o rawPara
+					if e := dec.Decode(&o); e == nil && len(o.Order) > 0 {
+						res.leak = []control.Paragraph{o.Paragraph}
+					}
+				}
 				return
 			}
 			res.built = true
@@ -370,6 +383,9 @@ func runC11(r *rt.Run, tier string) {
 		return
 	}
 
+	if len(res.leak) > 0 {
+		r.Violate("C11/unverified-text-reachable-after-error", key, "construction failed with %q but the value returned beside the error is a working reader that hands out %d paragraph(s) of unverified text", clip(res.err.Error(), 80), len(res.leak))
+	}
 	// 1. soundness, for every input whatsoever
 	if res.signer != nil {
 		if !sameEntity(res.signer, signer) || !inKeyring {
